@@ -89,6 +89,14 @@ func (e *Exec) inRepo(fn *ssa.Function) bool {
 
 // specWrites: effects of a function known only by contract.
 func (e *Exec) specWrites(fn *ssa.Function, spec *FuncSpec, ws map[string]bool) {
+	// ghost variables assigned by the callee's own ghost statements
+	for _, gs := range spec.GhostSets {
+		if g, ok := e.ss.GhostVars[gs.Var]; ok {
+			env := &SpecEnv{ex: e, st: &State{pc: "true", heaps: map[string]string{}, ghost: map[string]Val{}, cells: map[*ssa.Alloc]Val{}, nextRef: e.nextRef0}, vars: map[string]Val{}}
+			env.ghostVar(g)
+			ws["G$"+gs.Var] = true
+		}
+	}
 	if spec.Pure {
 		if spec.Allocs {
 			ws[wsAlloc] = true
